@@ -74,6 +74,10 @@ class Ctx:
                 fr["status"] = "unsupported"
                 fr["unsupported"] = rep.unsupported
                 self.unsupported.append((con.key, rep.unsupported))
+            fr["unreachable_paths"] = rep.unreachable
+            if rep.vacuous:
+                self.notes.append(f"{con.key}: scenarios without a reachable normal path (raise-only): {rep.vacuous}")
+                fr["raise_only_scenarios"] = rep.vacuous
             if rep.cover_failed:
                 self.checker_errors.append(f"{con.key}: precondition not satisfiable in {rep.cover_failed}")
             want = (min_obligations or {}).get(con.key, 1)
@@ -87,7 +91,7 @@ class Ctx:
                     self.discharged += 1
                     fr["discharged"] += 1
                     self.by_backend[ob.solver] = self.by_backend.get(ob.solver, 0) + 1
-                elif ob.status == "failed":
+                elif ob.status in ("failed", "candidate"):
                     fr["status"] = "failed"
                     self._failed(con, ob, replay)
                 else:
@@ -111,7 +115,9 @@ class Ctx:
                 model_txt = str(ob.model)[:2000]
         payload = {"property": self.prop, "obligation": ob.name, "function": con.key, "clause": clause,
                    "scenario": ob.scenario, "path_trace": ob.meta.get("trace"), "solver": ob.solver,
-                   "solver_answer": "sat (negated goal satisfiable)", "model": model_txt}
+                   "solver_answer": "sat (negated goal satisfiable)" if ob.status == "failed" else
+                   "full query unknown; negated goal satisfiable with the quantified assumptions instantiated over "
+                   "the ground terms of the query (finite scope)", "model": model_txt}
         try:
             payload["smt2"] = ob.smt2()[:20000]
         except Exception:
